@@ -55,6 +55,9 @@ func parseBoth(c *run.C, cd *codec.Codec, doc []byte, r *gen.Rand) (m *mon.Monit
 	// for accepted documents, the same events
 	entry := 3 + r.Intn(2)
 	dsizes := []int{gen.Pick(r, []int{1, 2, 3, 7, 16, 64, 4096}), r.Range(1, 9), r.Range(1, 70)}
+	if r.P(1, 6) {
+		dsizes = append(dsizes, 0) // one empty read per cycle
+	}
 	dec := parseVia(c, cd, doc, dsizes, entry, r.Bool())
 	if !dec.ok {
 		return nil, nil, false
